@@ -1074,10 +1074,15 @@ def woff2_container_and_glyph_normalisation(tier, rnd):
         sources.append(("gen-glyf-%d" % i, lambda i=i: gen_glyf_font(rnd, lsb_is_xmin=bool(i % 2), mono_tail=(0, 3, 1)[i % 3])))
         sources.append(("gen-glyf-keepboxes-%d" % i, lambda i=i: gen_glyf_font(rnd, mono_tail=i % 2)))
         sources.append(("gen-cff-%d" % i, lambda i=i: gen_cff_font(rnd, cff2=bool(i % 2))))
+        # glyph records not padded to 4 bytes in the plain save (glyf.padding 0/1/2): the WOFF2 writer
+        # re-pads them, which can flip the loca format - head must follow what is stored
+        sources.append(("gen-glyf-pad%d-%d" % ((0, 1, 2)[i % 3], i), lambda i=i: gen_glyf_font(rnd, nsimple=5 + i % 3)))
     for k, (name, make) in enumerate(sources):
         f = make()
         if "gen" in name or (k % 2 and name not in LAZY_ONLY):
             f.ensureDecompiled()
+        if "-pad" in name:
+            f["glyf"].padding = int(name.split("-pad")[1][0])
         f.recalcBBoxes = "keepboxes" not in name          # wrong stored boxes must survive as explicit WOFF2 boxes
         plain = read_sfnt(save_bytes(f, None, True))[1]
         is_tt = b"glyf" in plain
@@ -1142,6 +1147,9 @@ def _compare_woff2_glyphs(E, plain, pg):
     tr, ol, gb = E[b"glyf"]
     if tr:
         fmt, wg = decode_woff2_glyf(gb)
+        if struct.unpack_from(">h", E[b"head"][2], 50)[0] != fmt:
+            P.append("head.indexToLocFormat %d contradicts the transformed glyf's indexFormat %d (a decoder rebuilds loca in the latter)" % (
+                struct.unpack_from(">h", E[b"head"][2], 50)[0], fmt))
         if E[b"loca"][1] != (len(wg) + 1) * (4 if fmt else 2):
             P.append("loca origLength %d inconsistent with indexFormat %d and %d glyphs" % (E[b"loca"][1], fmt, len(wg)))
     else:
